@@ -36,6 +36,7 @@ QUERIES_B = [
     {"it": [0, 10, 20, 30], "vars": [], "rl": 0},
     {"it": [30, 10], "vars": ["mass", "alpha"], "rl": 0},
     {"it": [10, 30], "vars": [], "rl": 1},
+    {"it": [10, 20], "vars": ["t", "mass"], "rl": 0},
 ]
 ITSELS = [[0], [20], [0, 10, 20], [20, 0], [10, 10], [10, 30], [5, 10]]
 VARSELS = [[], ["alpha"], ["beta"]]
@@ -44,6 +45,7 @@ QUERIES = [
     {"it": [0, 10, 20, 30], "vars": [], "rl": 0},
     {"it": [20, 5, 0], "vars": ["alpha", "gamma"], "rl": 0},
     {"it": [10, 30], "vars": [], "rl": 1},
+    {"it": [0, 10], "vars": ["alpha", "t"], "rl": 0},     # the time column named explicitly
 ]
 
 
